@@ -62,3 +62,11 @@ def run(ctx):
     from ..engines import forestrules as FE
     FE.e13_reverse_switch_read_live(ctx)
     ctx.floor("E13", 2)
+    # 'whatever the fixed-point analysis accepts as productive can be evaluated': the analysis itself keeps its books
+    # (shift corrections, gap, held-back rules) after every change of a value
+    from ..engines import tablemethod as FT
+    for fn in (FT.f2_initial_shifts, FT.f3_gap_size, FT.f5_firing_test, FT.f6_increase_corrections, FT.f7_infinite_corrections, FT.f8_gap):
+        fn(ctx)
+    ctx.floor("F6", 4)
+    ctx.floor("F7", 3)
+    ctx.floor("F5", 3)
